@@ -5,7 +5,7 @@ QUICK = ["msp430"]
 
 def jobs(tier, names=None, prop="C07"):
     js = []
-    names = names or (QUICK if tier == "quick" else [n for n in sorted(CPUS) if CPUS[n]["cpu"]])
+    names = names or (QUICK if tier == "quick" else ["msp430", "riscv", "6502", "z80", "8051"])
     for n in names:
         c = CPUS[n]
         base = int(c["base"], 16)
@@ -21,7 +21,7 @@ def jobs(tier, names=None, prop="C07"):
             for nm, mask, val in parts:
                 dd = dict(d, PART_BYTE=0, PART_MASK=mask, PART_VAL=val)
                 js.append(vp.Job("roundtrip.riscv.%s" % nm, "roundtrip.cpp", dd, max_paths=100000 if tier == "quick" else 1000000,
-                                 timeout=240 if tier == "quick" else 1500, allow_partial=True, min_completed=0, render_classes=2))
+                                 timeout=240 if tier == "quick" else 700, allow_partial=True, min_completed=0, render_classes=2))
             continue
         if pb is None:
             js.append(vp.Job("roundtrip.%s" % n, "roundtrip.cpp", d, max_paths=100000 if tier == "quick" else 1000000,
@@ -30,7 +30,7 @@ def jobs(tier, names=None, prop="C07"):
             for part in range(16):
                 dd = dict(d, PART_BYTE=pb, PART=part)
                 js.append(vp.Job("roundtrip.%s.p%x" % (n, part), "roundtrip.cpp", dd, max_paths=100000 if tier == "quick" else 1000000,
-                                 timeout=240 if tier == "quick" else 1500, allow_partial=True, min_completed=0, render_classes=2))
+                                 timeout=240 if tier == "quick" else 700, allow_partial=True, min_completed=0, render_classes=2))
     return js
 
 def main(tier):
